@@ -758,7 +758,7 @@ func init() {
 			}
 		}
 		// (e) whole documents
-		ne := n / 3
+		ne := n * 2 / 3
 		for it := 0; it < ne; it++ {
 			nb := rng.Range(0, 10)
 			var dblocks, oblocks []wpBlock
